@@ -24,8 +24,8 @@ def run(c):
     drv = c.driver(DRIVER)
     binary = c.go_build(HARNESS)
     if binary and drv:
-        # every 8th case is a live trial: quick 112 + 16, thorough 1400 + 200 (each costs >= 1 s of real time; 24 run concurrently)
-        rc, out = c.go_run(binary, [f"-n={c.n(128, 1600)}"], timeout=3000)
+        # every 8th case is a live trial: quick 112 + 16, thorough 2800 + 400 (each costs >= 1 s of real time; 24 run concurrently)
+        rc, out = c.go_run(binary, [f"-n={c.n(128, 3200)}"], timeout=3000)
         c.harness_ok(rc, out, "verif-c31")
         c.correspond(out, drv)
 
